@@ -82,6 +82,16 @@ CHECKS = {
                      'outermost error node next-token line carries an issue, non-empty when strict parsing fails.',
                 note='TLC; recorder. One systematic exception is a known finding (f-string error nodes, versions >= 3.9).',
                 ref='2.5, 3 C13'),
+    'C18': dict(level=MC, tech='TLA+ spec Threads (all interleavings with <= 3 preemptions, TLC) whose schedules are imposed on real threads by a deterministic scheduler; ThreadTrace evaluated by TLC on the recorded runs',
+                text='TLC explores every interleaving of two threads\' accesses to the shared memo tables and private steps with at '
+                     'most 3 preemptions, checks the publication claims and prints every schedule; each schedule is imposed on real '
+                     'threads (preemption at token / pop / recovery / leaf-visit / memo-access granularity, cold runs start from '
+                     'emptied memo tables); TLC checks on the recorded runs that every result equals the same call in a fresh '
+                     'interpreter and that the structural fingerprint of all shared state is unchanged after first use; plus all '
+                     'sequential first-use orders of three versions.',
+                note='TLC; settrace-based scheduler (one runnable thread at a time); fingerprint summarises object sets by member '
+                     'types; generated tables are unique only up to state numbering, so cold states are judged by stability.',
+                ref='2.8, 3 C18'),
     'C19': dict(level=MC, tech='TLA+ A-spec Tree (C19 clauses: table equality after round trips, Splice) evaluated by TLC on recorded round trips and refactor results',
                 text='For every tree of the standard text set: the tree after pickle.loads(dumps) and after eval(dump(indent)) is '
                      're-serialised and compared by TLC field by field (class, type, token type, value, prefix, positions, '
